@@ -19,9 +19,9 @@ import (
 
 func init() {
 	register(&Rule{
-		Prop: "C10",
+		Prop:        "C10",
 		Explanation: "Totality decided as the absence of every way the engine can stop other than by returning, over the VTA call-graph closure of the load functions, every search entry point, GetSuggestions and the recovery searches: (O-1) no reachable panic/os.Exit/log.Fatal; (O-2) every MustCompile pattern is a constant that compiles; (O-3) every string handed to the third-party fuzzy matcher as a candidate comes out of a NUL-removing function (the matcher indexes past its pattern on a NUL); (O-4) LoadDatabase hands each failing step's error to the classifier under its own operation, the classifier gives a decode failure the parse verdict before looking at anything else and recognises a missing file through the error chain, and a successful read+decode returns the database with a nil error; (O-5) every reachable loop is a range loop or a counted loop towards a loop-invariant bound and the reachable call graph is acyclic; (O-6) every implicit run-time check (index, slice bound, make size, integer divisor, single-result type assertion) is proven safe for all parameter values by overflow-aware interval analysis with parameter ranges gathered from all call sites, symbolic index<len facts from guards and loop headers matched through versioned renderings, location-class invariants (what is ever stored in a field, in the keys/values of the maps of one origin, in a local slice), library contracts (fuzzy Match.Index < len(data), sort.Slice callback indices), and six named data-structure invariants whose construction sites are re-checked on every run.",
-		NotDecided: []string{"nil dereferences (left to the type structure: optional pointers are nil-checked at their uses by inspection, not by this check)", "panics inside third-party code other than the matcher's NUL defect (yaml decoder, cobra)", "running time beyond loop shape: no bound in seconds is derived", "memory exhaustion by a large but well-formed database file"},
+		NotDecided:  []string{"nil dereferences (left to the type structure: optional pointers are nil-checked at their uses by inspection, not by this check)", "panics inside third-party code other than the matcher's NUL defect (yaml decoder, cobra)", "running time beyond loop shape: no bound in seconds is derived", "memory exhaustion by a large but well-formed database file"},
 		Assumptions: []string{"no slice, string or map holds more than 2^48 elements", "a counter stepped by a small constant does not wrap (2^43 steps are not reachable)", "objects are not used before their constructor returns or concurrently with it", "fuzzy.Find returns Match.Index in [0, len(data)); sort.Slice calls less only with valid indices", "the index structures are rebuilt whenever the command list changes (decided under C03)"},
 		Run:         runC10,
 	})
@@ -66,29 +66,45 @@ func runC10(c *Ctx) {
 	c10Regex(c)
 	c10Classify(c)
 	c10Termination(c, scope)
+	k := c10ImplicitChecks(c, "O-6", roots, scope, nil, nil)
+	c10Matcher(c, k)
+}
+
+// c10ImplicitChecks proves every implicit run-time check of the functions in
+// scope (rule id given; also used by C17 for the CLI layer). skip, when not
+// nil, excludes functions already covered elsewhere.
+func c10ImplicitChecks(c *Ctx, rule string, roots, scope []*ssa.Function, skip map[*ssa.Function]bool, lenLo func(*bounds.Fn, ssa.Value) (int64, bool)) *c10k {
+	r := c.R
 	sx := symx.New(c.P.IsRepoFunc)
 	eng := bounds.New(sx, c.P.CallGraph(), c.P.IsRepoFunc)
 	for _, fn := range roots {
 		eng.Roots[fn] = true
 	}
 	bounds.Debug = os.Getenv("WTF_DEBUG_BOUNDS") != ""
-	inScope := map[*ssa.Function]bool{}
-	for _, fn := range scope {
-		inScope[fn] = true
-	}
 	eng.InScope = func(fn *ssa.Function) bool { return isShipped(c, fn) }
 	k := newC10k(c, eng)
-	c10Matcher(c, k)
 	eng.NonNegOf = k.nonNegOf
 	eng.BoundedOf = k.boundedOf
 	eng.UpperOf = k.upperOf
+	if lenLo != nil {
+		prev := eng.LenLo
+		eng.LenLo = func(f *bounds.Fn, x ssa.Value) (int64, bool) {
+			if v, ok := lenLo(f, x); ok {
+				return v, true
+			}
+			if prev != nil {
+				return prev(f, x)
+			}
+			return 0, false
+		}
+	}
 	invs := k.invariants()
 	listCovers, listCheck := k.listEntryInvariant()
 	used := map[string]int{}
 	kinds := map[string][2]int{}
 	ord := newOrdinal()
 	for _, fn := range scope {
-		if fn.Synthetic != "" {
+		if fn.Synthetic != "" || skip[fn] {
 			continue
 		}
 		sites := eng.Sites(fn)
@@ -112,9 +128,9 @@ func runC10(c *Ctx) {
 			}
 			if s.OK {
 				kd[1]++
-				r.OK("O-6", key, c.P.Pos(s.Instr.Pos()), s.Desc+": "+s.How)
+				r.OK(rule, key, c.P.Pos(s.Instr.Pos()), s.Desc+": "+s.How)
 			} else {
-				r.Bad("O-6", key, c.P.Pos(s.Instr.Pos()), s.Desc+": "+s.Why)
+				r.Bad(rule, key, c.P.Pos(s.Instr.Pos()), s.Desc+": "+s.Why)
 			}
 			kinds[s.Kind] = kd
 		}
@@ -125,11 +141,11 @@ func runC10(c *Ctx) {
 			continue
 		}
 		ok, detail := inv.check()
-		r.Check(ok, "O-6", "invariant:"+inv.id, "", fmt.Sprintf("%s (justifies %d accesses; construction sites re-checked)", inv.text, used[inv.id]), "the data-structure invariant that "+fmt.Sprint(used[inv.id])+" accesses rely on no longer follows from the construction sites: "+detail+" ["+inv.text+"]")
+		r.Check(ok, rule, "invariant:"+inv.id, "", fmt.Sprintf("%s (justifies %d accesses; construction sites re-checked)", inv.text, used[inv.id]), "the data-structure invariant that "+fmt.Sprint(used[inv.id])+" accesses rely on no longer follows from the construction sites: "+detail+" ["+inv.text+"]")
 	}
 	if used["list-holds-entries"] > 0 {
 		ok, detail := listCheck()
-		r.Check(ok, "O-6", "invariant:list-holds-entries", "", "every element of the cache's list is a *cache.Entry", detail)
+		r.Check(ok, rule, "invariant:list-holds-entries", "", "every element of the cache's list is a *cache.Entry", detail)
 	}
 	r.Analysed["invariant_uses"] = used
 	for kk, v := range kinds {
@@ -137,6 +153,7 @@ func runC10(c *Ctx) {
 		r.Analysed["sites_"+kk+"_proven"] = v[1]
 	}
 	r.Analysed["functions_in_scope"] = len(scope)
+	return k
 }
 
 // c10Exits: O-1.
